@@ -14,6 +14,8 @@ dst = os.path.join("/verif/seeded", pid if rnd == "1" else "%s-%s" % (pid, rnd))
 os.makedirs(dst, exist_ok=True)
 shutil.copy(os.path.join(wt, "patch.diff"), os.path.join(dst, "patch.diff"))
 shutil.copy(os.path.join(wt, "demo_%s.py" % pid), os.path.join(dst, "demo_%s.py" % pid))
+if os.path.exists(os.path.join(wt, "orig_issue_%s.py" % pid)):
+    shutil.copy(os.path.join(wt, "orig_issue_%s.py" % pid), os.path.join(dst, "orig_issue_%s.py" % pid))
 if os.path.exists(os.path.join(wt, "notes.txt")):
     shutil.copy(os.path.join(wt, "notes.txt"), os.path.join(dst, "agent_notes.txt"))
 vf = "/tmp/seedverify_%s.out" % pid if rnd == "1" else "/tmp/verify%s_%s.txt" % (rnd, pid)
